@@ -33,19 +33,29 @@ pub const EXT_B: u16 = 0xF0A2;
 pub const CUSTOM_PROP: u16 = 0xF1B1;
 pub const CUSTOM_PROP_PATH: u16 = 0xF1B2;
 
-/// Basic identity provider with a shared reject list (identifiers the application refuses).
+/// Credential type of the harness' custom credentials (the identity is the credential data).
+pub const CUSTOM_CRED: u16 = 0xF0F0;
+
+/// Basic identity provider with a shared reject list (identifiers the application refuses);
+/// with `custom_ok` it also understands credentials of type `CUSTOM_CRED` and advertises them.
 #[derive(Clone, Default)]
 pub struct VIdent {
     pub rejected: Arc<Mutex<BTreeSet<Vec<u8>>>>,
+    pub custom_ok: bool,
 }
 
 impl VIdent {
+    fn name(&self, id: &SigningIdentity) -> Result<Vec<u8>, AnyErr> {
+        if let Some(b) = id.credential.as_basic() {
+            return Ok(b.identifier.clone());
+        }
+        match id.credential.as_custom() {
+            Some(c) if self.custom_ok && c.credential_type == CredentialType::new(CUSTOM_CRED) => Ok(c.data.clone()),
+            _ => Err(AnyErr("credential type not understood".into())),
+        }
+    }
     fn check(&self, id: &SigningIdentity) -> Result<(), AnyErr> {
-        let name = id
-            .credential
-            .as_basic()
-            .map(|b| b.identifier.clone())
-            .ok_or_else(|| AnyErr("not a basic credential".into()))?;
+        let name = self.name(id)?;
         if self.rejected.lock().unwrap().contains(&name) {
             return Err(AnyErr("identity rejected by application".into()));
         }
@@ -74,24 +84,24 @@ impl IdentityProvider for VIdent {
     fn identity(
         &self,
         signing_identity: &SigningIdentity,
-        extensions: &ExtensionList,
+        _extensions: &ExtensionList,
     ) -> Result<Vec<u8>, AnyErr> {
-        BasicIdentityProvider::new()
-            .identity(signing_identity, extensions)
-            .map_err(|e| AnyErr(format!("{e:?}")))
+        self.name(signing_identity)
     }
     fn valid_successor(
         &self,
         predecessor: &SigningIdentity,
         successor: &SigningIdentity,
-        extensions: &ExtensionList,
+        _extensions: &ExtensionList,
     ) -> Result<bool, AnyErr> {
-        BasicIdentityProvider::new()
-            .valid_successor(predecessor, successor, extensions)
-            .map_err(|e| AnyErr(format!("{e:?}")))
+        Ok(self.name(predecessor)? == self.name(successor)?)
     }
     fn supported_types(&self) -> Vec<CredentialType> {
-        BasicIdentityProvider::new().supported_types()
+        let mut v = BasicIdentityProvider::new().supported_types();
+        if self.custom_ok {
+            v.push(CredentialType::new(CUSTOM_CRED));
+        }
+        v
     }
 }
 
@@ -254,7 +264,12 @@ pub fn make_client(
         Some(r) => AnyCrypto::recorded(prov, who, r),
         None => AnyCrypto::new(prov),
     };
-    let si = SigningIdentity::new(BasicCredential::new(name.to_vec()).into_credential(), pk);
+    let cred = if ident.custom_ok && name.starts_with(b"cc") {
+        mls_rs::identity::Credential::Custom(mls_rs::identity::CustomCredential::new(CredentialType::new(CUSTOM_CRED), name.to_vec()))
+    } else {
+        BasicCredential::new(name.to_vec()).into_credential()
+    };
+    let si = SigningIdentity::new(cred, pk);
     let client = ClientBuilder::new()
         .key_package_repo(stores.kp.clone())
         .psk_store(stores.psk.clone())
@@ -380,6 +395,8 @@ pub struct World {
     pub rejoined_same_storage: BTreeSet<usize>,
     /// group context extensions that every GroupContextExtensions proposal of the driver keeps
     pub keep_exts: Vec<Extension>,
+    /// chance that a new party's identity provider also supports the custom credential type
+    pub p_custom_cred: (u32, u32),
 }
 
 pub struct CommitResult {
@@ -409,6 +426,7 @@ impl World {
             cur_commit: None,
             rejoined_same_storage: BTreeSet::new(),
             keep_exts: vec![],
+            p_custom_cred: (0, 1),
         }
     }
 
@@ -456,7 +474,10 @@ impl World {
         let cs = self.suite_of(prov);
         let (sk, pk) = keys.unwrap_or_else(|| cs.signature_key_generate().expect("sig keygen"));
         let stores = Stores::new(self.cfg.backend, self.cfg.retention);
-        let ident = VIdent::default();
+        let ident = VIdent {
+            custom_ok: self.p_custom_cred.0 > 0 && self.rng.chance(self.p_custom_cred.0, self.p_custom_cred.1),
+            ..Default::default()
+        };
         let rules = self.cfg.rules();
         let rec = self.cfg.record.then(|| self.rec.clone());
         let (client, si) = make_client(
